@@ -123,6 +123,24 @@ def spelling_pass(ctx, L, units):
     return nv
 
 
+def far_pass(ctx, L, units):
+    """marks far beyond both ends of every table (to 5 x the best tabulated field mark, down to 0.01 for times, and far
+    on the poor side): still monotone, still within bounds"""
+    nv = 0; seen = set()
+    for u in units:
+        ident = (u.sys,) + tuple(u.key[:2] if u.sys in ('ty', 'ath') else u.key)
+        if ident in seen: continue
+        seen.add(ident)
+        span = max(10, u.hi - u.lo)
+        ks = sorted(set([max(1, u.lo - i * span // 8) for i in range(0, 9)] + [u.lo, u.hi] + [u.hi + i * span // 6 for i in range(1, 31)] +
+                        [100, 101, 99, 1000, 999, 1001, 10000, 9999]))
+        ks = [k for k in ks if k >= 1]
+        call = JC.c05_call
+        nv += _sweep(ctx, u, ks, (lambda a, u=u: JC.c05_call(L, u, a)()), 'marks far beyond the table', (lambda a, u=u: JC.c05_replay(u, a)))
+    ctx.stats['tables_swept_far_beyond'] = len(seen)
+    return nv
+
+
 def history_pass(ctx, L):
     """the same table asked again after calls with other options: answers for a fixed event, gender and age must not depend
     on what was scored before (English Schools option of the boys' 800 m)"""
@@ -196,6 +214,7 @@ def run(ctx):
             if res['nviol'] > 1: note += '; %d violations in this table' % res['nviol']
             ctx.fail(fn, args, exp, got, note=note, replay_py=rp)
     nv += spelling_pass(ctx, L, units)
+    nv += far_pass(ctx, L, units)
     nv += history_pass(ctx, L)
     ctx.stats['tables'] = len(units); ctx.stats['violations_seen'] = nv
     ctx.distinct = set(range(strict))
